@@ -38,13 +38,25 @@ PROPS = ["Nstd.Callback.Props"]
 DRIVER = "drv_callback"
 LEAN_TARGETS = PROPS + [DRIVER]
 SOURCES = ["callback.cpp", C.REPO / "src/Callback.cpp", C.REPO / "src/Memory.cpp"]
-NE, NG, NL, NS, MAXK, MAXACT = 3, 3, 3, 2, 8, 8
+NE, NG, NL, NS, MAXK, MAXACT, NV = 3, 9, 3, 2, 8, 8, 10
 
 
 # ---- actions ---------------------------------------------------------------------------------------
-# an action is a tuple: ('c',e,g,l,s) connect, ('d',e,g,l,s) disconnect, ('m',e,g) emit, ('L',l), ('E',e)
+# an action is a tuple: ('c',e,g,l,s) connect, ('d',e,g,l,s) disconnect, ('m',e,g,v) emit with argument v (signal g has
+# g parameters, the harness passes (v, v+1, .., v+g-1); v = 0 for signal 0), ('L',l), ('E',e), ('n',l), ('w',e).
+# The generators build ('m',e,g); `history` numbers the emissions (argument = running count) when it prints them.
 def tok(a):
     return a[0] + "".join(str(x) for x in a[1:])
+
+
+def with_args(actions, counter):
+    out = []
+    for a in actions:
+        if a[0] == "m" and len(a) == 3:
+            counter[0] += 1
+            a = a + ((counter[0] % (NV - 1)) + 1 if a[2] != 0 else 0,)
+        out.append(a)
+    return out
 
 
 def top_line(a):
@@ -54,7 +66,7 @@ def top_line(a):
     if k == "d":
         return "disconnect %d %d %d %d" % a[1:]
     if k == "m":
-        return "emit %d %d" % a[1:]
+        return "emit %d %d %d" % a[1:]
     if k == "L":
         return "dell %d" % a[1]
     if k == "n":
@@ -71,20 +83,24 @@ def parse_tok(t):
 def parse_top(line):
     w = line.split()
     k = {"connect": "c", "disconnect": "d", "emit": "m", "dell": "L", "dele": "E", "newl": "n", "newe": "w"}.get(w[0])
-    n = {"c": 4, "d": 4, "m": 2, "L": 1, "E": 1, "n": 1, "w": 1}.get(k)
-    bounds = {"c": (NE, NG, NL, NS), "d": (NE, NG, NL, NS), "m": (NE, NG), "L": (NL,), "E": (NE,), "n": (NL,), "w": (NE,)}.get(k)
+    n = {"c": 4, "d": 4, "m": 3, "L": 1, "E": 1, "n": 1, "w": 1}.get(k)
+    bounds = {"c": (NE, NG, NL, NS), "d": (NE, NG, NL, NS), "m": (NE, NG, NV), "L": (NL,), "E": (NE,), "n": (NL,), "w": (NE,)}.get(k)
     if k is None or len(w) != n + 1 or not all(x.isdigit() and len(x) < 7 for x in w[1:]):
         return None
     v = tuple(int(x) for x in w[1:])
     if any(x >= b for x, b in zip(v, bounds)):
+        return None
+    if k == "m" and v[1] == 0 and v[2] != 0:
         return None
     return (k,) + v
 
 
 def history(tops, scripts):
     """op lines of a program: the script table first, then the top-level actions"""
-    h = ["script %d %d %d %s" % (l, s, k, " ".join(tok(a) for a in acts)) for (l, s, k), acts in sorted(scripts.items()) if acts]
-    return h + [top_line(a) for a in tops] + ["end"]
+    cnt = [0]
+    h = ["script %d %d %d %s" % (l, s, k, " ".join(tok(a) for a in with_args(acts, cnt)))
+         for (l, s, k), acts in sorted(scripts.items()) if acts]
+    return h + [top_line(a) for a in with_args(tops, cnt)] + ["end"]
 
 
 # ---- the property's oracle: the snapshot specification, independent of the Lean model ---------------
@@ -122,10 +138,12 @@ class Spec:
                         c[5] = False
                         break
         elif k == "m":
-            _, e, g = a
+            e, g = a[1], a[2]
+            v = a[3] if len(a) > 3 else 0
             eo = self.e_obj[e]
             if eo is None:
                 return
+            self.log.append("<%d.%d:%d" % (e, g, v))
             key = (eo, g)
             if self.active.get(key, 0) == 0:
                 self.outer[key] = self.clk
@@ -137,9 +155,10 @@ class Spec:
                 if eo not in self.e_obj:
                     break
                 if c[5]:
-                    self.invoke(c[2], c[3])
+                    self.invoke(c[2], c[3], v)
             if eo in self.e_obj:
                 self.active[key] -= 1
+            self.log.append(">")
         elif k == "L":
             lo = self.l_obj[a[1]]
             if lo is not None:
@@ -164,9 +183,9 @@ class Spec:
                 self.e_obj[a[1]] = self.next_obj
                 self.next_obj += 1
 
-    def invoke(self, lo, s):
+    def invoke(self, lo, s, v):
         l = self.l_index[lo]
-        self.log.append((l, s))
+        self.log.append("%d.%d:%d" % (l, s, v))
         k = self.inv.get((l, s), 0)
         self.inv[(l, s)] = k + 1
         for a in self.script_of(l, s, k):
@@ -174,15 +193,18 @@ class Spec:
 
     def line(self):
         live = [c for c in self.conns if c[5]]
-        out = ["log" + "".join(" %d.%d" % p for p in self.log), "|"]
+        out = ["log" + "".join(" " + p for p in self.log), "|"]
         for e in range(NE):
             eo = self.e_obj[e]
             if eo is None:
                 out.append("E%d:x" % e)
                 continue
+            sigs = []
             for g in range(NG):
-                v = ",".join("%d.%d" % (self.l_index[c[2]], c[3]) for c in live if c[0] == eo and c[1] == g) or "-"
-                out.append(("E%d:" % e if g == 0 else "") + "g%d=%s" % (g, v))
+                v = ",".join("%d.%d" % (self.l_index[c[2]], c[3]) for c in live if c[0] == eo and c[1] == g)
+                if v:
+                    sigs.append("g%d=%s" % (g, v))
+            out.append("E%d:" % e + (" ".join(sigs) or "-"))
         out.append("|")
         for l in range(NL):
             lo = self.l_obj[l]
@@ -218,6 +240,14 @@ def reference(hist):
                 table[(l, s, k)] = acts
             out.append("ok" if ok else "bad-op")
             continue
+        if len(w) == 2 and w[0] == "refargs":
+            # reference parameters: every slot gets the caller's objects themselves (C++ rule, not in the model)
+            if w[1].isdigit() and len(w[1]) < 7 and int(w[1]) < NV:
+                v = int(w[1])
+                out.append("ref" + "".join(" %d:2:%d" % (v + i, 2 * i) for i in range(3)) + " | %d 6" % (v + 3))
+            else:
+                out.append("bad-op")
+            continue
         if w == ["end"]:
             acts = [("L", l) for l in range(NL)] + [("E", e) for e in range(NE)]
         else:
@@ -234,12 +264,14 @@ def reference(hist):
 
 
 def parse_top_tok(t):
-    shapes = {"c": (NE, NG, NL, NS), "d": (NE, NG, NL, NS), "m": (NE, NG), "L": (NL,), "E": (NE,), "n": (NL,), "w": (NE,)}
+    shapes = {"c": (NE, NG, NL, NS), "d": (NE, NG, NL, NS), "m": (NE, NG, NV), "L": (NL,), "E": (NE,), "n": (NL,), "w": (NE,)}
     b = shapes.get(t[:1])
     if b is None or len(t) != 1 + len(b) or not t[1:].isdigit():
         return None
     v = tuple(int(c) for c in t[1:])
     if any(x >= y for x, y in zip(v, b)):
+        return None
+    if t[0] == "m" and v[1] == 0 and v[2] != 0:
         return None
     return (t[0],) + v
 
@@ -383,12 +415,14 @@ def exhaustive(U, size, limit=None, pool=None):
 def gen_program(rng, size):
     """random program of total size <= `size`: a pool of favourite (e,g,l,s) tuples makes repeated
     connect/disconnect of the same connection and re-entrant emissions of the same signal likely"""
-    pool = [(rng.randrange(NE), rng.randrange(NG), rng.randrange(NL), rng.randrange(NS)) for _ in range(rng.choice([1, 2, 3, 5]))]
+    # three of the nine signals (= arities) per program, so that unrelated draws still meet
+    sigs = rng.sample(range(NG), 3)
+    pool = [(rng.randrange(NE), rng.choice(sigs), rng.randrange(NL), rng.randrange(NS)) for _ in range(rng.choice([1, 2, 3, 5]))]
 
     def tup():
         if rng.random() < 0.8:
             return rng.choice(pool)
-        return (rng.randrange(NE), rng.randrange(NG), rng.randrange(NL), rng.randrange(NS))
+        return (rng.randrange(NE), rng.choice(sigs), rng.randrange(NL), rng.randrange(NS))
 
     def act(in_script):
         r = rng.random()
@@ -463,21 +497,163 @@ def nesting_depth(hist):
     return depth[1]
 
 
+class SpecHits(Spec):
+    """the oracle with counters of the situations the property text and the audit of docs/callback.md name
+    (evidence only: which re-entrant situations the histories of a run actually reach)"""
+
+    def __init__(self, script_of, hits):
+        Spec.__init__(self, script_of)
+        self.hits = hits
+        self.stack = []     # emissions in progress: [emitter object, g, snapshot, index of the connection being invoked]
+        self.ever = set()   # (emitter object, g) that ever got a connection (the emitter has SignalData for g)
+
+    def hit(self, k):
+        self.hits[k] = self.hits.get(k, 0) + 1
+
+    def act(self, a):
+        k = a[0]
+        top = self.stack[-1] if self.stack else None
+        if k in "cd":
+            _, e, g, l, s = a
+            eo, lo = self.e_obj[e], self.l_obj[l]
+            if eo is None or lo is None:
+                self.hit(("connect" if k == "c" else "disconnect") + ": variable holds no object (skipped by the harness)")
+                return
+            same = [c for c in self.conns if c[5] and c[0] == eo and c[1] == g and c[2] == lo and c[3] == s]
+            where = ""
+            if top:
+                if any(f[0] == eo and f[1] == g for f in self.stack):
+                    where = " inside a slot, on the signal being emitted"
+                elif any(f[0] == eo for f in self.stack):
+                    where = " inside a slot, other signal of an emitting emitter"
+                else:
+                    where = " inside a slot, on another emitter"
+            if k == "c":
+                self.ever.add((eo, g))
+                self.hit("connect" + where + (": duplicate of a live connection" if same else ""))
+            elif not same:
+                self.hit("disconnect" + where + ": nothing to disconnect")
+            else:
+                self.hit("disconnect" + where + (": oldest of %s duplicates" % ("2" if len(same) == 2 else ">2") if len(same) > 1 else ""))
+                for f in self.stack:
+                    if f[0] == eo and f[1] == g and same[0] in f[2]:
+                        i = f[2].index(same[0])
+                        self.hit("disconnect of a connection in the snapshot of a running emission: " +
+                                 ("the one being invoked" if i == f[3] else "a later one" if i > f[3] else "an earlier one"))
+            Spec.act(self, a)
+        elif k == "m":
+            e, g = a[1], a[2]
+            v = a[3] if len(a) > 3 else 0
+            eo = self.e_obj[e]
+            if eo is None:
+                self.hit("emit: variable holds no emitter (skipped by the harness)")
+                return
+            depth = sum(1 for f in self.stack if f[0] == eo and f[1] == g)
+            if depth:
+                self.hit("emit nested on the signal being emitted, depth %s" % (depth + 1 if depth < 3 else ">=4"))
+            elif top:
+                self.hit("emit inside a slot: " + ("other signal of an emitting emitter" if any(f[0] == eo for f in self.stack) else "another emitter"))
+            if (eo, g) not in self.ever:
+                self.hit("emit: the emitter has no SignalData for the signal")
+            elif not any(c[5] and c[0] == eo and c[1] == g for c in self.conns):
+                self.hit("emit: the slot list is empty")
+            self.hit("emit: arity %d" % g)
+            self.log.append("<%d.%d:%d" % (e, g, v))
+            key = (eo, g)
+            if self.active.get(key, 0) == 0:
+                self.outer[key] = self.clk
+                self.clk += 1
+            self.active[key] = self.active.get(key, 0) + 1
+            start = self.outer[key]
+            snap = [c for c in self.conns if c[5] and c[0] == eo and c[1] == g and c[4] < start]
+            fr = [eo, g, snap, -1]
+            self.stack.append(fr)
+            for i, c in enumerate(snap):
+                if eo not in self.e_obj:
+                    self.hit("emission cut short: its emitter was destroyed")
+                    break
+                fr[3] = i
+                if c[5]:
+                    self.invoke(c[2], c[3], v)
+                else:
+                    self.hit("emission skips a connection of its snapshot that is gone")
+            self.stack.pop()
+            if eo in self.e_obj:
+                self.active[key] -= 1
+            self.log.append(">")
+        elif k == "L":
+            lo = self.l_obj[a[1]]
+            if lo is not None and top:
+                own = top[2][top[3]][2] == lo
+                pending = any(c[5] and c[2] == lo and i > f[3] for f in self.stack for i, c in enumerate(f[2]))
+                self.hit("listener destroyed inside " + ("its own slot" if own else "a slot of another listener") +
+                         (", a slot of it still pending in a running emission" if pending else ""))
+            Spec.act(self, a)
+        elif k == "E":
+            eo = self.e_obj[a[1]]
+            if eo is not None and top:
+                depth = sum(1 for f in self.stack if f[0] == eo)
+                if depth == 0:
+                    self.hit("emitter destroyed inside a slot: not emitting itself")
+                else:
+                    self.hit("emitter destroyed inside a slot while %s of its emissions run%s" %
+                             (depth if depth < 3 else ">=3", ", by a slot of ANOTHER emitter's emission" if top[0] != eo else ""))
+            Spec.act(self, a)
+        else:
+            if top and ((k == "n" and self.l_obj[a[1]] is None) or (k == "w" and self.e_obj[a[1]] is None)):
+                self.hit("listener re-created inside a slot" if k == "n" else "emitter re-created inside a slot")
+            Spec.act(self, a)
+
+
+def count_hits(hists, hits):
+    for hist in hists:
+        table = {}
+        spec = SpecHits(lambda l, s, k: table.get((l, s, k), []), hits)
+        for line in hist:
+            w = line.split()
+            if w[0] == "script":
+                table[(int(w[1]), int(w[2]), int(w[3]))] = [parse_tok(t) for t in w[4:]]
+            elif w[0] == "end":
+                for a in [("L", l) for l in range(NL)] + [("E", e) for e in range(NE)]:
+                    spec.act(a)
+            else:
+                a = parse_top(line)
+                if a is not None:
+                    spec.act(a)
+
+
 def swap_signals(h, perm=(1, 0, 2)):
-    """the same program with the signals renamed (signal 1 goes through the arity-1, signal 2 through the
-    arity-8 overloads)"""
+    """the same program with the signals renamed (signal g goes through the arity-g overloads); the emissions
+    are numbered again (argument 0 for signal 0)"""
+    cnt = [0]
+    if not isinstance(perm, dict):
+        perm = dict(enumerate(perm))
+    perm = {g: perm.get(g, g) for g in range(NG)}
+
+    def arg(g):
+        if g == 0:
+            return 0
+        cnt[0] += 1
+        return cnt[0] % (NV - 1) + 1
+
     def tokmap(t):
-        if t[0] in "cdm":
+        if t[0] in "cd":
             return t[0] + t[1] + str(perm[int(t[2])]) + t[3:]
+        if t[0] == "m":
+            g = perm[int(t[2])]
+            return "m" + t[1] + str(g) + str(arg(g))
         return t
     out = []
     for line in h:
         w = line.split()
         if w[0] == "script":
             out.append(" ".join(w[:4] + [tokmap(t) for t in w[4:]]))
-        elif w[0] in ("connect", "disconnect", "emit"):
+        elif w[0] in ("connect", "disconnect"):
             w[2] = str(perm[int(w[2])])
             out.append(" ".join(w))
+        elif w[0] == "emit":
+            g = perm[int(w[2])]
+            out.append("emit %s %d %d" % (w[1], g, arg(g)))
         else:
             out.append(line)
     return out
@@ -485,7 +661,7 @@ def swap_signals(h, perm=(1, 0, 2)):
 
 def nontrivial(h, out):
     """non-trivial = at least 3 slot invocations in total; distinct by the whole observation stream"""
-    n = sum(max(0, len(o.split(" | ")[0].split()) - 1) for o in out if o.startswith("log"))
+    n = sum(sum(1 for t in o.split(" | ")[0].split()[1:] if t[0].isdigit()) for o in out if o.startswith("log"))
     if n < 3:
         return None
     return hashlib.sha1("\n".join(out).encode()).hexdigest()
@@ -509,13 +685,21 @@ def histories_for(ctx):
             e = exhaustive(U, size, pool=pool)
             desc.append(f"{U[0]}e x {U[1]}g x {U[2]}l x {U[3]}s{' + re-creation' if len(U) > 4 else ''} size<={size}: {len(e)}")
             ex += e
+            if U == (1, 1, 1, 1):
+                # signal g has g parameters: once more through each of the other arity overloads of emit/connect/disconnect
+                small = [h for h in e if len(h) <= size - 1] if quick else e
+                for k in range(1, NG):
+                    ex += [swap_signals(h, {0: k}) for h in small]
+                desc.append(f"those of at most {size - 2 if quick else size - 1} op lines (+ end) over each of the signals 1..8 (arity 1..8): 8 x {len(small)}")
             if U[:4] == (1, 1, 2, 2):
-                # once more with the only signal being signal 1 (arity-1 overloads of emit/connect/disconnect)
-                ex += [swap_signals(h) for h in e] + [swap_signals(h, (2, 0, 1)) for h in e]
-                desc.append(f"the same over signal 1 and over signal 2: 2 x {len(e)}")
+                ex += [swap_signals(h, {0: 1}) for h in e] + [swap_signals(h, {0: 8}) for h in e]
+                desc.append(f"the same over signal 1 and over signal 8: 2 x {len(e)}")
             if U[:4] == (2, 2, 2, 2):
-                ex += [swap_signals(h, (1, 2, 0)) for h in e]
-                desc.append(f"the same over signals 1,2: {len(e)}")
+                ex += [swap_signals(h, {0: 3, 1: 6}) for h in e]
+                desc.append(f"the same over signals 3,6: {len(e)}")
+            if U[:4] == (3, 2, 3, 2):
+                ex += [swap_signals(h, {0: 5, 1: 2}) for h in e[::4]]
+                desc.append(f"every 4th of them over signals 5,2: {len(e[::4])}")
     nrand = 5000 if quick else 100000
     rnd = [gen_program(rng, rng.choice([6, 10, 16, 24, 40])) for _ in range(nrand)]
     depths = {}
@@ -523,9 +707,15 @@ def histories_for(ctx):
         d = nesting_depth(h)
         depths[d] = depths.get(d, 0) + 1
     ctx.cov["nesting_depth_histogram_first_2000_random"] = {str(k): v for k, v in sorted(depths.items())}
+    hits = {}
+    sample = hs + ex[::10] + rnd[:3000]
+    count_hits(sample, hits)
+    ctx.cov["branch_hits"] = {"measured_on": f"corpus + every 10th enumerated program + the first 3000 random programs ({len(sample)} programs), "
+                                             "situations counted by the Python oracle",
+                              "hits": dict(sorted(hits.items()))}
     ctx.cov["rule"] = (f"corpus ({ncorpus}) + exhaustive: every program (top-level actions + slot scripts, up to renaming of emitters/"
                        f"signals/listeners/slots) of total size <= N in which every scripted cell is invoked [{'; '.join(desc)}] + "
-                       f"{len(rnd)} random programs of total size <= 6..40 over 3 emitters x 3 signals (arity 0, 1, 8) x 3 listeners x 2 slots "
+                       f"{len(rnd)} random programs of total size <= 6..40 over 3 emitters x 9 signals (signal g = arity g, 0..8; every emission carries an argument tuple that the slots check and log) x 3 listeners x 2 slots "
                        "(scripts on invocation numbers < 8, connect/disconnect/emit/delete or re-create listener/emitter inside slots); "
                        "distinct_nontrivial = distinct observation streams among programs with >= 3 slot invocations")
     ctx.cov["exhaustive"] = False
